@@ -44,7 +44,8 @@ def main():
     except ValueError:
         seed = 0
     t0 = time.time()
-    ev_path = os.path.join(VERIF, "evidence", "%s.json" % prop)
+    EVDIR = os.environ.get("EPBD_EVIDENCE_DIR") or os.path.join(VERIF, "evidence")
+    ev_path = os.path.join(EVDIR, "%s.json" % prop)
     os.makedirs(os.path.dirname(ev_path), exist_ok=True)
 
     try:
@@ -86,6 +87,59 @@ def main():
         traceback.print_exc()
         return 2
     signal.alarm(0)
+    release_stats = None
+    if tier == "thorough" and not rep.errors:
+        # the same pack on the release profile (panic = "abort", no overflow checks, release cfgs)
+        ctx2 = common.Ctx(ctx.release_world_dir, tier=tier, seed=seed, build_info=infos.get("release"))
+        rep2 = common.Report(prop)
+        signal.alarm(int(os.environ.get("EPBD_TIME_BUDGET", "900")))
+        try:
+            mod.run(ctx2, rep2)
+        except common.AnchorMissing as e:
+            rep2.violated("anchor/%s" % e, "public anchor '%s' must exist" % e,
+                          why="the public API the property is stated on was not found (release profile)")
+        except Exception:
+            print("CHECKER-ERROR: rule pack crashed on the release profile")
+            traceback.print_exc()
+            return 2
+        signal.alarm(0)
+        rep.errors.extend(rep2.errors)
+        dev_bad = set(o.key for o in rep.obligations if o.status != "discharged")
+        extra = [o for o in rep2.obligations if o.status != "discharged" and o.key not in dev_bad]
+        for o in extra:
+            o.key = "release:" + o.key
+            rep.obligations.append(o)
+        release_stats = {"obligations": len(rep2.obligations),
+                         "discharged": sum(1 for o in rep2.obligations if o.status == "discharged"),
+                         "release_only_violations": len(extra)}
+    selfval = None
+    if tier == "thorough" and not rep.errors and os.environ.get("EPBD_SELFVAL", "1") != "0":
+        # sensitivity of this very check on today's tree: hand-written and independently seeded breaking
+        # changes of this property, each applied to a scratch copy of /repo (never to /repo), must be reported;
+        # behaviour-preserving variants must stay silent.  Recorded in the evidence; never a VIOLATION.
+        import subprocess
+        import tempfile
+        outp = tempfile.mktemp(prefix="epbd_selfval_", suffix=".json")
+        try:
+            subprocess.run([sys.executable, os.path.join(VERIF, "tools", "battery.py"), "-j", "6", "--seeded", "--out", outp, prop.lower()],
+                           stdout=subprocess.DEVNULL, stderr=subprocess.DEVNULL, timeout=3300,
+                           env=dict(os.environ, EPBD_SELFVAL="0", VERIF_TIER="quick"))
+            res = json.load(open(outp)) if os.path.exists(outp) else {}
+        except Exception as ex:          # noqa
+            res = {"error": {"status": str(ex)[:200]}}
+        finally:
+            if os.path.exists(outp):
+                os.remove(outp)
+        selfval = {"entries": len(res),
+                   "breaking_reported": sorted(k for k, v in res.items() if v.get("status") == "caught"),
+                   "breaking_not_reported_by_this_check": sorted(k for k, v in res.items() if v.get("status") == "MISSED"),
+                   "benign_silent": sorted(k for k, v in res.items() if str(v.get("status")).startswith("silent")),
+                   "benign_false_alarm": sorted(k for k, v in res.items() if v.get("status") == "FALSE-ALARM"),
+                   "other": dict((k, v.get("status")) for k, v in res.items()
+                                 if v.get("status") not in ("caught", "MISSED", "FALSE-ALARM") and not str(v.get("status")).startswith("silent"))}
+        print("self-validation: %d breaking changes reported, %d not reported by this check, %d benign silent, %d benign false alarms"
+              % (len(selfval["breaking_reported"]), len(selfval["breaking_not_reported_by_this_check"]),
+                 len(selfval["benign_silent"]), len(selfval["benign_false_alarm"])))
     if rep.errors:
         for e in rep.errors:
             print("CHECKER-ERROR: %s" % e)
@@ -97,8 +151,9 @@ def main():
     viol = []
     seen_known = set()
     for o in bad:
-        if o.key in known_keys:
-            seen_known.add(o.key)
+        k0 = o.key[len("release:"):] if o.key.startswith("release:") else o.key
+        if k0 in known_keys:
+            seen_known.add(k0)
         else:
             viol.append(o)
     for k in sorted(seen_known):
@@ -109,7 +164,7 @@ def main():
         print("(%d violations; the first %d are listed)" % (len(viol), len(shown)))
     for o in shown:
         n += 1
-        rp = os.path.join(VERIF, "evidence", "%s.violation-%d.json" % (prop, n))
+        rp = os.path.join(EVDIR, "%s.violation-%d.json" % (prop, n))
         with open(rp, "w") as fh:
             json.dump({"property": prop, "obligation": o.to_json(),
                        "replay_cmd": "python3 check.py %s --tier %s" % (prop, tier)}, fh, indent=1)
@@ -123,7 +178,7 @@ def main():
     # stale violation files from earlier runs
     i = n + 1
     while True:
-        rp = os.path.join(VERIF, "evidence", "%s.violation-%d.json" % (prop, i))
+        rp = os.path.join(EVDIR, "%s.violation-%d.json" % (prop, i))
         if not os.path.exists(rp):
             break
         os.remove(rp)
@@ -157,6 +212,8 @@ def main():
             "instance_floors": dict((k, {"measured": v[0], "floor": v[1]}) for k, v in rep.floors.items()),
             "known_findings_matched": sorted(seen_known),
             "front_end": infos,
+            "release_profile_run": release_stats,
+            "self_validation": selfval,
             "exhaustive": False,
         },
         "assumptions": rep.assumptions,
